@@ -51,7 +51,7 @@ _dl("net", ["network:find_urls", "network:find_ips", "network:find_domains", "ne
     families.get("net").tokens, {"quick": 3, "thorough": 4})
 _dl("url", ["network:find_urls", "network:normalize_path", "network:normalize_percent_encoding"],
     ["http://", "a.com", "1.2.3.4", "%41", "%2f", "%zz", "%5B", "[", "::1", "]", ":", "80", "@", "/", "..", ".", "?", "#", "%", "%4"],
-    {"quick": 3, "thorough": 4}, wraps=((b"", b""), (b"http://a.com", b""), (b"('http://", b"')")))
+    {"quick": 3, "thorough": 4}, wraps=((b"", b""), (b"http://a.com", b""), (b"('http://", b"')"), (b"see http://[::1", b"]/x ok"), (b"ftp://u:p@[fe80::1%25", b"]:21/")))
 _dl("winpath", ["path:find_windows_path", "path:find_path"], families.get("winpath").tokens, {"quick": 4, "thorough": 5})
 _dl("strings", ["concat:find_concat", "reverse:find_reverse", "vba:find_strreverse", "vba:find_createobject", "replace:find_replace",
                 "replace:find_vba_replace", "replace:find_powershell_replace", "replace:find_js_regex_replace"],
